@@ -73,3 +73,38 @@ Theorem C12_dominators_order_free :
       forall m, In m nodes -> dget D1 m = dget D2 m.
 Proof. exact find_dominators_order_independent. Qed.
 Print Assumptions C12_dominators_order_free.
+
+(* _imm_doms (site `for v in list(vs)`: a snapshot of a set, enumerated in hash order): when the strict
+   dominator sets are chains - witnessed by an immediate-dominator table, a condition the checker evaluates
+   on every call of the pipeline with the returned dictionary as witness - the result is that table for EVERY
+   enumeration order (Model/ImmDom.v line by line, Model/ImmDomProof.v) *)
+From V Require Import Model.ImmDom Model.ImmDomProof Model.ImmDomRun.
+Theorem C12_imm_doms_order_free :
+  forall snap1 snap2 doms w fuel1 fuel2,
+    (forall k vs x, In x (snap1 k vs) <-> In x vs) -> (forall k vs x, In x (snap2 k vs) <-> In x vs) ->
+    imm_pre doms w = true -> (2 <= fuel1)%nat -> (2 <= fuel2)%nat ->
+    imm_doms snap1 fuel1 doms = imm_doms snap2 fuel2 doms.
+Proof.
+  intros snap1 snap2 doms w fuel1 fuel2 S1 S2 Hp F1 F2.
+  rewrite (imm_doms_correct_b snap1 doms w fuel1 S1 Hp F1), (imm_doms_correct_b snap2 doms w fuel2 S2 Hp F2). reflexivity.
+Qed.
+Print Assumptions C12_imm_doms_order_free.
+
+(* ASTCFG.prune_unreachable (site `block = to_visit.pop()` on a set of strings): whatever element the set
+   hands out, the loop ends within the stated fuel and `reachable` is the set of blocks reachable from the
+   entry (Model/PruneWl.v) *)
+From V Require Import Model.Graph Model.PruneWl.
+Theorem C12_prune_unreachable_order_free :
+  forall succ pick1 pick2 start U fuel1 fuel2,
+    (forall l, l <> [] -> exists x l', pick1 l = Some (x, l')) ->
+    (forall l x l', pick1 l = Some (x, l') -> In x l /\ (forall y, In y l' <-> In y l /\ y <> x) /\ NoDup l') ->
+    (forall l, l <> [] -> exists x l', pick2 l = Some (x, l')) ->
+    (forall l x l', pick2 l = Some (x, l') -> In x l /\ (forall y, In y l' <-> In y l /\ y <> x) /\ NoDup l') ->
+    In start U ->
+    (forall x l y, In x U -> succ x = Some l -> In y l -> In y U) ->
+    (forall x, In x U -> succ x <> None) ->
+    ((List.length U + 1) * (List.length U + 1) < fuel1)%nat -> ((List.length U + 1) * (List.length U + 1) < fuel2)%nat ->
+    exists R1 R2, wl succ pick1 fuel1 [start] [] = POk R1 /\ wl succ pick2 fuel2 [start] [] = POk R2 /\
+      forall x, In x R1 <-> In x R2.
+Proof. exact prune_reachable_order_free. Qed.
+Print Assumptions C12_prune_unreachable_order_free.
